@@ -66,6 +66,32 @@ SHAPES = [
 ]
 
 
+ODD_COMMENTS = [      # line comments holding characters that Python's str.splitlines() takes for line breaks, then code-like text
+    "# kept for reference:\u2028option(OLD_BACKEND \"h\" ON)", "# ---- helpers ----\x0cfunction(page_two)",
+    "# a\x0bset(V 1)\x1c) b\x85( c\u2029endfunction()", "#[[ bracket\u2028option(IN_BRACKET \"h\" ON) ]]"]
+
+
+def extra_jobs():
+    """annotation comments with odd characters at four positions; declarations in an inner class that name the outer class"""
+    jobs = []
+    for t in ODD_COMMENTS:
+        c = {"k": "comment", "text": t}
+        for pos in ([c, {"k": "set", "doc": 1}], [{"k": "function", "doc": 1, "params": []}, c, {"k": "option", "doc": 0}],
+                    [{"k": "generic", "doc": 1}, c, {"k": "generic", "doc": 1}], [{"k": "cpp_class", "doc": 1}, c, {"k": "cpp_attr", "doc": 1}],
+                    [{"k": "option", "doc": 0}, c]):
+            jobs.append(([dict(e) for e in pos], False))
+    for doc in (1, 0):
+        outer, inner = {"k": "cpp_class", "doc": 1}, {"k": "cpp_class", "doc": doc}
+        mem = {"k": "cpp_member", "doc": doc, "types": ["int"], "params": ["a"], "cls_up": 1}
+        att = {"k": "cpp_attr", "doc": doc, "default": "v", "cls_up": 1}
+        ctor = {"k": "cpp_constructor", "doc": doc, "types": [], "params": [], "cls_up": 1}
+        cl = {"k": "close"}
+        for body in ([att], [mem], [ctor], [att, mem, cl, ctor], [dict(att, cls_up=0), att]):
+            jobs.append(([dict(outer), dict(inner)] + [dict(e) for e in body], False))
+            jobs.append(([dict(outer), dict(outer, doc=doc), dict(inner)] + [dict(e, cls_up=2) if "cls_up" in e else dict(e) for e in body], False))
+    return jobs
+
+
 def shape_jobs():
     """argument shapes of single commands the BFS alphabet has one spelling of, documented and not, at five positions"""
     jobs = []
@@ -106,6 +132,7 @@ def run(ctx):
     ctx.sweep(functools.partial(sweep_one, case=cases[1]), [(h, t) for h in hs for t in (True, False)],
               space="no-dedup sweep (with and without a trailing dangling doccomment)")
     ctx.sweep(functools.partial(sweep_one, case=cases[2]), shape_jobs(), space="argument shapes x positions")
+    ctx.sweep(functools.partial(sweep_one, case=cases[2]), extra_jobs(), space="odd comment characters; declarations naming an outer class")
     ctx.assumptions += ["documented implementing definitions are outside the domain (claimed by two clauses of the statement)",
                         "generic command names are compared in lower case (C04 requires case-independent output)",
                         "wording of notes/warnings is matched by the keywords the statement names"]
